@@ -38,8 +38,10 @@ func (g *genCfg) genAny(id string) *Case {
 		return g.genCall("s2h", id)
 	case x < 15:
 		return g.genCall("h2s", id)
-	case x < 18:
+	case x < 17:
 		return g.genMethodCase(id)
+	case x < 18:
+		return g.genRetainCase(id)
 	}
 	return g.genVarCase(id)
 }
